@@ -81,6 +81,9 @@ func (c *Ctx) condRel(it Item) Rel {
 	if !ok {
 		return Rel{}
 	}
+	if it.Cond != nil {
+		return c.P.RelOf(it.Cond, it.Pol, it.Frame)
+	}
 	return c.P.RelOf(ifi.Cond, it.Pol, it.Frame)
 }
 
